@@ -7,6 +7,8 @@ def cases(tier, seed):
         for mi in sorted({1, 2, n, n + 3}):
             for cond in ((10.0, 1000.0) if tier != "quick" else (100.0,)):
                 yield dict(fn="alg.cg", args=dict(n=n, complex=cplx, precond=pre, max_iter=mi, cond=cond, seed=seed + n))
+    for n, cplx in itertools.product((2, 3, 5), (False, True)):
+        yield dict(fn="alg.cg", args=dict(n=n, complex=cplx, precond="identity-same-array", max_iter=n + 1, cond=100.0, seed=seed + n))
     for n, cplx, pre in itertools.product((2, 3, 5), (False, True), (False, True)):
         yield dict(fn="alg.cg_krylov", args=dict(n=n, complex=cplx, precond=pre, seed=seed + n))
     for n in (1, 2, 4):
@@ -14,5 +16,5 @@ def cases(tier, seed):
 
 
 def groups(tier, seed):
-    yield dict(name="ConjugateGradient on dense SPD systems", bound="n in {1,2,3,5,8}(+4,12 thorough), real/complex, with/without P, "
+    yield dict(name="ConjugateGradient on dense SPD systems", bound="n in {1,2,3,5,8}(+4,12 thorough), real/complex, with/without P (and a preconditioner returning its argument), "
                "max_iter in {1,2,n,n+3}; Krylov optimality of every iterate for n in {2,3,5}; indefinite n in {1,2,4}", cases=cases(tier, seed))
